@@ -99,14 +99,15 @@ class LastPos:
 
   @classmethod
   def _from_string(cls, string, valid=False):
-    if string[-1] == "$":
-      return cls(int(string[:-1]), valid=valid)
+    is_last = string.endswith("$")
+    try:
+      v = int(string[:-1] if is_last else string)
+    except:
+      raise gfapy.FormatError(
+          "LastPos value has a wrong format: {}".format(string))
+    if is_last:
+      return cls(v, valid=valid)
     else:
-      try:
-        v = int(string)
-      except:
-        raise gfapy.FormatError(
-            "LastPos value has a wrong format: {}".format(string))
       if not valid:
         if v < 0:
           raise gfapy.ValueError("LastPos value shall be >= 0,"+
